@@ -49,9 +49,16 @@ type Msg struct {
 	// HTTP/1.1 head (request line or status line, Host, the header fields, the
 	// stated Content-Length or Transfer-Encoding: chunked) and parsed with
 	// http.ReadRequest / http.ReadResponse, as the proxy obtains its messages.
+	// NoCtx (direct Stream path only; never part of a pair): 1 = the request
+	// (or the response's request) has no martian context, as for a message
+	// that no proxy is handling; 2 = a response whose Request field is nil.
+	NoCtx    int  `json:"no_ctx,omitempty"`
 	Parsed   bool `json:"parsed,omitempty"`
 	CLStated bool `json:"cl_stated,omitempty"` // Parsed: a Content-Length field (value CL, 0 included) is on the wire
-	API      bool `json:"api,omitempty"`
+	// Trailers (Parsed, chunked): a "Trailer: k1, k2" field announces these
+	// trailer fields; net/http moves it from Header to the Trailer field.
+	Trailers []string `json:"trailers,omitempty"`
+	API      bool     `json:"api,omitempty"`
 
 	Method string `json:"method,omitempty"`
 	URL    string `json:"url,omitempty"`
@@ -73,10 +80,13 @@ type Msg struct {
 	// chunk i also returns a transient, timeout-type error; 2 = after chunk i one
 	// Read returns (0, that error). The body carries on afterwards and the
 	// consumer retries.
-	ChunkErr    []int  `json:"chunk_err,omitempty"`
-	EOFWithData bool   `json:"eof_with_data,omitempty"`
-	Fail        bool   `json:"fail,omitempty"`
-	Seed        uint64 `json:"seed"`
+	ChunkErr    []int `json:"chunk_err,omitempty"`
+	EOFWithData bool  `json:"eof_with_data,omitempty"`
+	Fail        bool  `json:"fail,omitempty"`
+	// FailCut (with Fail): the final error is io.ErrUnexpectedEOF, what net/http
+	// reports for a body cut short of its Content-Length - not an end of file.
+	FailCut bool   `json:"fail_cut,omitempty"`
+	Seed    uint64 `json:"seed"`
 
 	// consumer: buffer sizes (cycled), Stop > 0: stop after that many reads,
 	// Extra: reads issued after the first error, Yield: Gosched between reads.
@@ -131,6 +141,9 @@ func (m Msg) wireHead() string {
 	if len(m.TE) > 0 {
 		fmt.Fprintf(&sb, "Transfer-Encoding: %s\r\n", strings.Join(m.TE, ", "))
 	}
+	if len(m.Trailers) > 0 {
+		fmt.Fprintf(&sb, "Trailer: %s\r\n", strings.Join(m.Trailers, ", "))
+	}
 	sb.WriteString("\r\n")
 	return sb.String()
 }
@@ -175,6 +188,9 @@ func newScripted(m Msg) *scripted {
 	s := &scripted{data: kit.Bytes(m.Seed, m.total()), chunks: m.Chunks, cerr: m.ChunkErr, eofWD: m.EOFWithData, term: io.EOF}
 	if m.Fail {
 		s.term = errScripted
+		if m.FailCut {
+			s.term = io.ErrUnexpectedEOF
+		}
 	}
 	return s
 }
@@ -390,6 +406,9 @@ func expectedHeaders(m Msg, req *http.Request) map[string][]string {
 	if len(m.TE) > 0 {
 		exp["Transfer-Encoding"] = m.TE
 	}
+	if m.Parsed && len(m.Trailers) > 0 {
+		exp["Trailer"] = []string{trailerTokens(m.Trailers)}
+	}
 	return exp
 }
 
@@ -461,16 +480,20 @@ func buildOnce(msgs []Msg, modifier bool) (bs []*built, removes []func(), clash 
 			if err != nil {
 				return nil, removes, "", kit.Failf("C19/harness/bad-case", "message %d: %v", i, err)
 			}
-			var rm func()
-			ctx, rm, err = martian.TestContext(b.req, nil, nil)
-			if err != nil {
-				return nil, removes, "", kit.Failf("C19/harness/test-context", "martian.TestContext: %v", err)
+			if modifier || m.NoCtx == 0 {
+				var rm func()
+				ctx, rm, err = martian.TestContext(b.req, nil, nil)
+				if err != nil {
+					return nil, removes, "", kit.Failf("C19/harness/test-context", "martian.TestContext: %v", err)
+				}
+				removes = append(removes, rm)
 			}
-			removes = append(removes, rm)
 		}
-		full[i] = ctx.ID()
-		if m.API {
-			ctx.APIRequest()
+		if ctx != nil {
+			full[i] = ctx.ID()
+			if m.API {
+				ctx.APIRequest()
+			}
 		}
 		if m.Resp {
 			b.exp.mt = 2
@@ -488,10 +511,16 @@ func buildOnce(msgs []Msg, modifier bool) (bs []*built, removes []func(), clash 
 					Body: b.body, Request: b.req,
 				}
 			}
+			if !modifier && m.NoCtx == 2 {
+				b.res.Request = nil
+			}
 		} else {
 			b.req.Body = b.body
 		}
 		b.exp.headers = expectedHeaders(m, b.req)
+		if ctx == nil {
+			delete(b.exp.headers, ":api")
+		}
 		if m.Resp && m.Of >= 0 && msgs[m.Of].API {
 			b.exp.headers[":api"] = []string{"true"} // the flag lives on the shared context
 		}
@@ -526,6 +555,9 @@ func buildOnce(msgs []Msg, modifier bool) (bs []*built, removes []func(), clash 
 type failSink struct {
 	mu sync.Mutex
 	v  kit.Verdict
+	// hook, when set, is called by the consumer of message i after it was
+	// logged (reads == 0) and after each Read (reads = number made so far).
+	hook func(i, reads int)
 }
 
 func (f *failSink) addf(sig, format string, args ...interface{}) {
@@ -554,7 +586,11 @@ func logGroup(idxs []int, msgs []Msg, bs []*built, doLog func(i int) (io.ReadClo
 			m, b := msgs[i], bs[i]
 			defer func() {
 				if r := recover(); r != nil {
-					addf("C19/logging/"+mtName(m.Resp)+"/panic", "message %d: logging or reading the body panicked: %v\n%s", i, r, debug.Stack())
+					shape := mtName(m.Resp)
+					if m.NoCtx != 0 {
+						shape += "-without-martian-context"
+					}
+					addf("C19/logging/"+shape+"/panic", "message %d: logging or reading the body panicked: %v\n%s", i, r, debug.Stack())
 				}
 			}()
 			<-start
@@ -562,6 +598,9 @@ func logGroup(idxs []int, msgs []Msg, bs []*built, doLog func(i int) (io.ReadClo
 			if err != nil {
 				addf("C19/logging/"+mtName(m.Resp)+"/log-call-returned-error", "message %d: logging returned %v", i, err)
 				return
+			}
+			if sink.hook != nil {
+				sink.hook(i, 0)
 			}
 			extra := m.Extra
 			stoppedEarly := false
@@ -599,6 +638,9 @@ func logGroup(idxs []int, msgs []Msg, bs []*built, doLog func(i int) (io.ReadClo
 				b.exp.reads = append(b.exp.reads, readObs{n: n, eof: err == io.EOF, data: append([]byte(nil), buf[:n]...)})
 				if err == io.EOF {
 					b.exp.sawEOF = true
+				}
+				if sink.hook != nil {
+					sink.hook(i, reads+1)
 				}
 				if err != nil && err != errTransient { // a timeout is retried
 					if extra == 0 {
@@ -648,7 +690,23 @@ func analyse(root, conc string, frames []pframe, msgs []Msg, bs []*built, ignore
 		if ts := got[":timestamp"]; len(ts) == 1 {
 			got[":timestamp"] = []string{""}
 		}
-		if d := diffHeaders(e.headers, got); d != "" {
+		wantH := e.headers
+		if wt, ok := wantH["Trailer"]; ok {
+			// the Trailer announcement has its own signature, so that this known
+			// omission does not hide other header differences
+			wantH = map[string][]string{}
+			for k, v := range e.headers {
+				if k != "Trailer" {
+					wantH[k] = v
+				}
+			}
+			gt := trailerTokens(got["Trailer"])
+			delete(got, "Trailer")
+			if gt != wt[0] {
+				fails.Addf("C19/headers/"+mtName(msgs[i].Resp)+"-announcing-trailers/trailer-field-not-among-header-frames", "["+root+"] message %d (id %q): the message came with the header field Trailer: %s (net/http keeps it in the Trailer field of the message), the stream's header frames announce %q", i, e.id8, wt[0], gt)
+			}
+		}
+		if d := diffHeaders(wantH, got); d != "" {
 			fails.Addf(root+"headers/"+mtName(msgs[i].Resp)+"/header-frames-differ-from-message", "message %d (id %q): %s", i, e.id8, d)
 		}
 		// data frames
@@ -898,6 +956,22 @@ func runLog(c LogCase) kit.Verdict {
 	return fails
 }
 
+// trailerTokens normalises the value(s) of a Trailer field: the announced
+// names, canonical, sorted, comma-joined - however they were spread over
+// fields or spaced.
+func trailerTokens(vs []string) string {
+	var names []string
+	for _, v := range vs {
+		for _, t := range strings.Split(v, ",") {
+			if t = strings.TrimSpace(t); t != "" {
+				names = append(names, http.CanonicalHeaderKey(t))
+			}
+		}
+	}
+	sort.Strings(names)
+	return strings.Join(names, ",")
+}
+
 func diffHeaders(want, got map[string][]string) string {
 	var names []string
 	for k := range want {
@@ -1044,6 +1118,9 @@ func genMsg(t *rapid.T, i int, reqs []int) Msg {
 			m.CLStated, m.CL = true, rapid.SampledFrom([]int64{1, 5, 1 << 20}).Draw(t, "pcl")
 		case "chunked":
 			m.TE = []string{"chunked"}
+			if rapid.Bool().Draw(t, "trailers") {
+				m.Trailers = rapid.SampledFrom([][]string{{"X-Checksum"}, {"X-Checksum", "Grpc-Status"}, {"Expires"}}).Draw(t, "trailer_names")
+			}
 		}
 	}
 
@@ -1080,6 +1157,9 @@ func genMsg(t *rapid.T, i int, reqs []int) Msg {
 	}
 	m.EOFWithData = rapid.IntRange(0, 3).Draw(t, "eof_with_data") == 0
 	m.Fail = rapid.IntRange(0, 7).Draw(t, "fail") == 0
+	if m.Fail {
+		m.FailCut = rapid.Bool().Draw(t, "fail_cut")
+	}
 
 	// consumer
 	sizes := []int{1, 2, 7, 64, 512, 4096, 32 << 10, 64 << 10, 1 << 20}
@@ -1103,6 +1183,13 @@ func genMsg(t *rapid.T, i int, reqs []int) Msg {
 	}
 	m.Extra = rapid.SampledFrom([]int{0, 0, 0, 1, 2}).Draw(t, "extra")
 	m.Yield = rapid.IntRange(0, 2).Draw(t, "yield")
+	if m.Of < 0 && rapid.IntRange(0, 7).Draw(t, "no_ctx") == 0 {
+		m.NoCtx = 1
+		if m.Resp {
+			m.NoCtx = rapid.IntRange(1, 2).Draw(t, "no_ctx_kind")
+		}
+		m.API = false
+	}
 	return m
 }
 
@@ -1165,9 +1252,18 @@ func logClasses(c LogCase) []string {
 		}
 		if m.Fail {
 			set["read-error"] = true
+			if m.FailCut && !early {
+				set["body-cut-short-unexpected-eof"] = true
+			}
+		}
+		if m.NoCtx != 0 && !c.Modifier {
+			set["message-without-martian-context"] = true
 		}
 		if m.Parsed {
 			set["parsed-by-net/http"] = true
+			if len(m.Trailers) > 0 {
+				set["announces-trailers"] = true
+			}
 			if m.CLStated && m.CL == 0 {
 				set["content-length-0-stated"] = true
 			}
@@ -1230,7 +1326,7 @@ var propLogging = &kit.Prop[LogCase]{
 	ID: "C19", Name: "logging",
 	Rule: "1..8 requests/responses (URL parts, header multisets incl. large and non-canonical fields, Host/Content-Length/Transfer-Encoding fields, API flag, request/response pairs sharing an ID) logged concurrently to one marbl stream over a recording writer, directly or through marbl.Modifier, in a quarter of the cases to two streams in turn under the same IDs (each recording must hold everything); bodies are scripted readers (0..1 MiB in chunks, empty reads, transient timeout errors with or without bytes after which the consumer retries, EOF with or after the last bytes, or a final read error) consumed with generated buffer-size sequences, optional early stop and reads past the end; the recording is parsed with marbl.Reader and an independent parser and compared per (ID, type) with the message and with the reads the consumer made; a twin of the script gives the expected Read results; non-trivial = a body spanning >= 3 reads, an empty body, >= 2 concurrent messages or an early stop",
 	Run:  runLog, NonTrivial: logNonTrivial, Classes: logClasses, Journal: true,
-	Gates: map[string]float64{"nontrivial": 0.5, "concurrent>=2": 0.4, "body-spans>=3-reads": 0.4, "empty-body": 0.15, "early-stop": 0.1, "through-modifier": 0.15, "two-streams": 0.15, "parsed-by-net/http": 0.3, "content-length-0-stated": 0.15, "non-ascii-id-on-stream-path": 0.25, "transient-read-error-retried": 0.15, "eof-with-final-bytes": 0.1, "request-response-pair": 0.1},
+	Gates: map[string]float64{"nontrivial": 0.5, "concurrent>=2": 0.4, "body-spans>=3-reads": 0.4, "empty-body": 0.15, "early-stop": 0.1, "through-modifier": 0.15, "two-streams": 0.15, "announces-trailers": 0.05, "message-without-martian-context": 0.1, "body-cut-short-unexpected-eof": 0.08, "parsed-by-net/http": 0.3, "content-length-0-stated": 0.15, "non-ascii-id-on-stream-path": 0.25, "transient-read-error-retried": 0.15, "eof-with-final-bytes": 0.1, "request-response-pair": 0.1},
 	Gen: func(t *rapid.T) LogCase {
 		c := LogCase{Modifier: rapid.IntRange(0, 3).Draw(t, "modifier") == 0}
 		n := rapid.SampledFrom([]int{1, 1, 2, 3, 4, 6, 8}).Draw(t, "messages")
@@ -1246,7 +1342,7 @@ var propLogging = &kit.Prop[LogCase]{
 					m.ID, m.IDHex = c.Msgs[m.Of].ID, c.Msgs[m.Of].IDHex
 				}
 			}
-			if !m.Resp {
+			if !m.Resp && m.NoCtx == 0 {
 				reqs = append(reqs, i)
 			}
 			c.Msgs = append(c.Msgs, m)
